@@ -1434,4 +1434,632 @@ theorem hits_binning_counterexample :
 /-- `NonNegTs` is forced for the `binEnd` reading: Go's truncated `%` labels second −1 with 600 -/
 example : codeBin binCfgEx (-1) = 600 ∧ binEnd 600 (-1) = 0 := by decide
 
+/-! ## 13. the querier's fan-out in front of the aggregation (`APIClientQuerier.Query`)
+
+The transition system is `Model/C15Querier.lean`; the number of runners is
+`Gen.Querier.numRunners`, regenerated from the source on every check run. -/
+
+namespace Fan
+
+/-! ### 13.1 the regenerated runner count -/
+
+/-- the runner-count computation as the source spells it now is "`MaxConcurrent` when it is a real
+    limit (0 < mc < n), else one runner per host" -/
+theorem gen_numRunners_eq (n mc : Int) :
+    Gen.Querier.numRunners n mc = if 0 < mc ∧ mc < n then mc else n := by
+  by_cases h : 0 < mc ∧ mc < n <;> simp [Gen.Querier.numRunners, h]
+
+theorem numRunners_eq (n : Nat) (mc : Int) :
+    numRunners n mc = if 0 < mc ∧ mc < (n : Int) then mc.toNat else n := by
+  unfold numRunners
+  rw [gen_numRunners_eq]
+  split <;> simp
+
+/-- **numRunners_pos** (needed by "every failed host is reported", "rows are the union …"): for a
+    non-empty host list and EVERY `MaxConcurrent` — zero, negative, 1, more than the number of
+    hosts — at least one runner goroutine is started. Proved over the definition regenerated from
+    `APIClientQuerier.Query`. -/
+theorem numRunners_pos (n : Nat) (mc : Int) (h : 0 < n) : 1 ≤ numRunners n mc := by
+  rw [numRunners_eq]; split <;> omega
+
+/-- never more runners than hosts, and never more than a positive `MaxConcurrent` -/
+theorem numRunners_le (n : Nat) (mc : Int) : numRunners n mc ≤ n := by
+  rw [numRunners_eq]; split <;> omega
+
+theorem numRunners_le_mc (n : Nat) (mc : Int) (h : 0 < mc) : (numRunners n mc : Int) ≤ mc := by
+  rw [numRunners_eq]; split <;> omega
+
+variable {α β : Type}
+
+/-! ### 13.2 the invariant of the fan-out -/
+
+theorem busyOf_append (a b : List (Runner α)) : busyOf (a ++ b) = busyOf a ++ busyOf b := by
+  induction a with
+  | nil => rfl
+  | cons r a ih => cases r <;> simp [busyOf, ih]
+
+theorem busyOf_replicate_idle (k : Nat) : busyOf (List.replicate k (Runner.idle : Runner α)) = [] := by
+  induction k with
+  | zero => rfl
+  | succ k ih => simp [List.replicate_succ, busyOf, ih]
+
+theorem busyOf_all_done (rs : List (Runner α)) (h : ∀ r ∈ rs, r = .done) : busyOf rs = [] := by
+  induction rs with
+  | nil => rfl
+  | cons r rs ih =>
+    have := h r (by simp)
+    subst this
+    simp [busyOf]; exact ih (fun r hr => h r (by simp [hr]))
+
+theorem done_mem_swap (pre post : List (Runner α)) (r r' : Runner α) (hr' : r' ≠ .done)
+    (h : .done ∈ pre ++ r' :: post) : .done ∈ pre ++ r :: post := by
+  rcases List.mem_append.mp h with h | h
+  · exact List.mem_append.mpr (Or.inl h)
+  · rcases List.mem_cons.mp h with h | h
+    · exact absurd h.symm hr'
+    · exact List.mem_append.mpr (Or.inr (List.mem_cons.mpr (Or.inr h)))
+
+/-- what holds in every state of the fan-out: every workload is in exactly one place (not yet
+    handed over / held by a runner / in the result channel / taken by the consumer); the workloads
+    channel is closed only when everything was handed over; a runner only returns after that; the
+    result channel is closed only when every runner has returned -/
+structure Inv (hosts : List α) (s : St α) : Prop where
+  conserve : (s.pending ++ (busyOf s.runners ++ (s.buf ++ s.recvd))).Perm hosts
+  wclosed_pending : s.wclosed = true → s.pending = []
+  done_wclosed : .done ∈ s.runners → s.wclosed = true
+  closed_done : s.closed = true → ∀ r ∈ s.runners, r = .done
+
+theorem inv_init (hosts : List α) (k : Nat) : Inv hosts (init hosts k) := by
+  refine ⟨by simp [init, busyOf_replicate_idle], by simp [init], ?_, by simp [init]⟩
+  intro h
+  simp [init] at h
+
+theorem inv_step {cap : Nat} {hosts : List α} {s t : St α} (hs : Inv hosts s) (st : Step cap s t) : Inv hosts t := by
+  obtain ⟨hc, hw, hd, hcl⟩ := hs
+  cases st with
+  | hand w rest pre post hp hr =>
+    refine ⟨?_, ?_, ?_, ?_⟩
+    · rw [hp, hr] at hc
+      simp only [busyOf_append, busyOf, List.append_assoc, List.cons_append] at hc ⊢
+      refine List.Perm.trans ?_ hc
+      have := @List.perm_middle _ w (rest ++ busyOf pre) (busyOf post ++ (s.buf ++ s.recvd))
+      simpa [List.append_assoc] using this
+    · intro h; have := hw h; rw [hp] at this; cases this
+    · intro h; apply hd; rw [hr]; exact done_mem_swap _ _ _ _ (by simp) h
+    · intro h r hr'
+      have hall := hcl h
+      rw [hr] at hall
+      have := hall .idle (by simp)
+      cases this
+  | closeW hp hwc =>
+    refine ⟨hc, fun _ => hp, fun _ => rfl, hcl⟩
+  | exit pre post hwc hr =>
+    refine ⟨?_, hw, fun _ => hwc, ?_⟩
+    · rw [hr] at hc; simpa [busyOf_append, busyOf] using hc
+    · intro h r hr'
+      have hall := hcl h
+      rw [hr] at hall
+      have := hall .idle (by simp)
+      cases this
+  | sendBuf w pre post hr hlen =>
+    refine ⟨?_, hw, ?_, ?_⟩
+    · rw [hr] at hc
+      simp only [busyOf_append, busyOf, List.append_assoc, List.cons_append] at hc ⊢
+      refine List.Perm.trans ?_ hc
+      have h1 := @List.perm_middle _ w (s.pending ++ (busyOf pre ++ (busyOf post ++ s.buf))) s.recvd
+      have h2 := @List.perm_middle _ w (s.pending ++ busyOf pre) (busyOf post ++ (s.buf ++ s.recvd))
+      simp only [List.append_assoc] at h1 h2
+      exact h1.trans h2.symm
+    · intro h; apply hd; rw [hr]; exact done_mem_swap _ _ _ _ (by simp) h
+    · intro h r hr'
+      have hall := hcl h
+      rw [hr] at hall
+      have := hall (.busy w) (by simp)
+      cases this
+  | sendDirect w pre post hr hb =>
+    refine ⟨?_, hw, ?_, ?_⟩
+    · rw [hr] at hc
+      simp only [busyOf_append, busyOf, List.append_assoc, List.cons_append] at hc ⊢
+      refine List.Perm.trans ?_ hc
+      have h1 := @List.perm_middle _ w (s.pending ++ (busyOf pre ++ (busyOf post ++ (s.buf ++ s.recvd)))) []
+      have h2 := @List.perm_middle _ w (s.pending ++ busyOf pre) (busyOf post ++ (s.buf ++ s.recvd))
+      simp only [List.append_assoc, List.append_nil] at h1 h2
+      exact h1.trans h2.symm
+    · intro h; apply hd; rw [hr]; exact done_mem_swap _ _ _ _ (by simp) h
+    · intro h r hr'
+      have hall := hcl h
+      rw [hr] at hall
+      have := hall (.busy w) (by simp)
+      cases this
+  | recv w rest hb =>
+    refine ⟨?_, hw, hd, hcl⟩
+    rw [hb] at hc
+    simp only [List.cons_append] at hc ⊢
+    refine List.Perm.trans ?_ hc
+    have h1 := @List.perm_middle _ w (s.pending ++ (busyOf s.runners ++ (rest ++ s.recvd))) []
+    have h2 := @List.perm_middle _ w (s.pending ++ busyOf s.runners) (rest ++ s.recvd)
+    simp only [List.append_assoc, List.append_nil] at h1 h2
+    exact h1.trans h2.symm
+  | closeOut hall hcf =>
+    exact ⟨hc, hw, hd, fun _ => hall⟩
+
+
+theorem inv_steps {cap : Nat} {hosts : List α} {s t : St α} (hs : Inv hosts s) (st : Steps cap s t) : Inv hosts t := by
+  induction st with
+  | refl => exact hs
+  | tail _ h ih => exact inv_step ih h
+
+/-- states of the query for `hosts` with `k` runners and result-channel capacity `cap` -/
+def Reachable (cap : Nat) (hosts : List α) (k : Nat) (s : St α) : Prop := Steps cap (init hosts k) s
+
+theorem runners_length_step {cap : Nat} {s t : St α} (st : Step cap s t) : t.runners.length = s.runners.length := by
+  cases st <;> simp_all
+
+theorem runners_length {cap : Nat} {hosts : List α} {k : Nat} {s : St α} (h : Reachable cap hosts k s) :
+    s.runners.length = k := by
+  induction h with
+  | refl => simp [init]
+  | tail _ st ih => rw [runners_length_step st, ih]
+
+/-- a runner exists, or there was nothing to do -/
+def Staffed (hosts : List α) (k : Nat) : Prop := 0 < k ∨ hosts = []
+
+theorem pending_nil_of_all_done {hosts : List α} {s : St α} (hi : Inv hosts s) (hk : 0 < s.runners.length ∨ hosts = [])
+    (hall : ∀ r ∈ s.runners, r = .done) : s.pending = [] := by
+  rcases hk with hk | hk
+  · match hr : s.runners with
+    | [] => rw [hr] at hk; simp at hk
+    | r :: rs =>
+      have hm : r ∈ s.runners := by rw [hr]; simp
+      have := hall r hm
+      subst this
+      exact hi.wclosed_pending (hi.done_wclosed hm)
+  · have := hi.conserve
+    rw [hk] at this
+    have := this.eq_nil
+    simp at this
+    exact this.1
+
+/-- the result channel is closed only after every host's result was sent (any capacity, any number
+    of runners ≥ 1) -/
+theorem closed_all_sent {cap : Nat} {hosts : List α} {k : Nat} {s : St α} (h : Reachable cap hosts k s)
+    (hk : Staffed hosts k) (hc : s.closed = true) : (s.buf ++ s.recvd).Perm hosts := by
+  have hi := inv_steps (inv_init hosts k) h
+  have hall := hi.closed_done hc
+  have hp := pending_nil_of_all_done hi (by rw [runners_length h]; exact hk) hall
+  have := hi.conserve
+  rw [hp, busyOf_all_done _ hall] at this
+  simpa using this
+
+/-- no runner is left holding a result when the channel is closed: no send on a closed channel -/
+theorem no_send_after_close {cap : Nat} {hosts : List α} {k : Nat} {s : St α} (h : Reachable cap hosts k s)
+    (hc : s.closed = true) : busyOf s.runners = [] ∧ ∀ r ∈ s.runners, r = .done := by
+  have hi := inv_steps (inv_init hosts k) h
+  exact ⟨busyOf_all_done _ (hi.closed_done hc), hi.closed_done hc⟩
+
+/-- when the consumer sees the closed, drained channel it has taken exactly one result per entry of
+    the host list -/
+theorem final_delivered {cap : Nat} {hosts : List α} {k : Nat} {s : St α} (h : Reachable cap hosts k s)
+    (hk : Staffed hosts k) (hf : Final s) : s.recvd.Perm hosts := by
+  have := closed_all_sent h hk hf.1
+  rw [hf.2] at this
+  simpa using this
+
+/-! ### 13.3 termination, progress, the concrete scheduler -/
+
+theorem sum_weights_append (a b : List (Runner α)) :
+    ((a ++ b).map runnerWeight).sum = (a.map runnerWeight).sum + (b.map runnerWeight).sum := by
+  simp [List.sum_append]
+
+theorem step_measure {cap : Nat} {s t : St α} (st : Step cap s t) : measure t < measure s := by
+  cases st with
+  | hand w rest pre post hp hr =>
+    simp only [measure, hp, hr, sum_weights_append, List.map_cons, List.sum_cons, runnerWeight, List.length_cons]
+    omega
+  | closeW hp hwc => simp only [measure, hwc]; simp
+  | exit pre post hwc hr =>
+    simp only [measure, hr, sum_weights_append, List.map_cons, List.sum_cons, runnerWeight]; omega
+  | sendBuf w pre post hr hlen =>
+    simp only [measure, hr, sum_weights_append, List.map_cons, List.sum_cons, runnerWeight, List.length_append, List.length_cons, List.length_nil]; omega
+  | sendDirect w pre post hr hb =>
+    simp only [measure, hr, sum_weights_append, List.map_cons, List.sum_cons, runnerWeight]; omega
+  | recv w rest hb =>
+    simp only [measure, hb, List.length_cons]; omega
+  | closeOut hall hcf => simp only [measure, hcf]; simp
+
+/-- no schedule runs forever: an execution from `s` has at most `measure s` steps -/
+theorem no_infinite_schedule {cap : Nat} (f : Nat → St α) (hf : ∀ i, Step cap (f i) (f (i + 1))) : False := by
+  have : ∀ i, measure (f i) + i ≤ measure (f 0) := by
+    intro i
+    induction i with
+    | zero => simp
+    | succ i ih => have := step_measure (hf i); omega
+  have := this (measure (f 0) + 1)
+  omega
+
+
+
+theorem splitAtFirst_some (p : β → Bool) : ∀ (l pre post : List β) (x : β),
+    splitAtFirst p l = some (pre, x, post) → l = pre ++ x :: post ∧ p x = true
+  | [], _, _, _, h => by simp [splitAtFirst] at h
+  | a :: as, pre, post, x, h => by
+    unfold splitAtFirst at h
+    by_cases hp : p a = true
+    · simp [hp] at h
+      obtain ⟨rfl, rfl, rfl⟩ := h
+      exact ⟨rfl, hp⟩
+    · simp only [hp] at h
+      match hr : splitAtFirst p as with
+      | none => simp [hr] at h
+      | some (pre', x', post') =>
+        simp [hr] at h
+        obtain ⟨rfl, rfl, rfl⟩ := h
+        obtain ⟨e, hx⟩ := splitAtFirst_some p as pre' post' x' hr
+        exact ⟨by rw [e]; rfl, hx⟩
+
+theorem splitAtFirst_none (p : β → Bool) : ∀ (l : List β), splitAtFirst p l = none → ∀ x ∈ l, p x = false
+  | [], _, x, hx => by cases hx
+  | a :: as, h, x, hx => by
+    unfold splitAtFirst at h
+    by_cases hp : p a = true
+    · simp [hp] at h
+    · simp only [hp] at h
+      match hr : splitAtFirst p as with
+      | some (pre', x', post') => simp [hr] at h
+      | none =>
+        rcases List.mem_cons.mp hx with rfl | hx
+        · simpa using hp
+        · exact splitAtFirst_none p as hr x hx
+
+theorem splitAtLast_some (p : β → Bool) : ∀ (l pre post : List β) (x : β),
+    splitAtLast p l = some (pre, x, post) → l = pre ++ x :: post ∧ p x = true
+  | [], _, _, _, h => by simp [splitAtLast] at h
+  | a :: as, pre, post, x, h => by
+    unfold splitAtLast at h
+    match hr : splitAtLast p as with
+    | some (pre', x', post') =>
+      simp [hr] at h
+      obtain ⟨rfl, rfl, rfl⟩ := h
+      obtain ⟨e, hx⟩ := splitAtLast_some p as pre' post' x' hr
+      exact ⟨by rw [e]; rfl, hx⟩
+    | none =>
+      simp only [hr] at h
+      by_cases hp : p a = true
+      · simp [hp] at h
+        obtain ⟨rfl, rfl, rfl⟩ := h
+        exact ⟨rfl, hp⟩
+      · simp [hp] at h
+
+theorem splitAtLast_none (p : β → Bool) : ∀ (l : List β), splitAtLast p l = none → ∀ x ∈ l, p x = false
+  | [], _, x, hx => by cases hx
+  | a :: as, h, x, hx => by
+    unfold splitAtLast at h
+    match hr : splitAtLast p as with
+    | some (pre', x', post') => simp [hr] at h
+    | none =>
+      simp only [hr] at h
+      by_cases hp : p a = true
+      · simp [hp] at h
+      · rcases List.mem_cons.mp hx with rfl | hx
+        · simpa using hp
+        · exact splitAtLast_none p as hr x hx
+
+theorem handFirst_sound (cap : Nat) (s t : St α) (h : handFirst? s = some t) : Step cap s t := by
+  unfold handFirst? at h
+  match hp : s.pending, hf : splitAtFirst Runner.isIdle s.runners with
+  | w :: rest, some (pre, x, post) =>
+    simp only [hp, hf] at h
+    cases h
+    obtain ⟨e, hx⟩ := splitAtFirst_some _ _ _ _ _ hf
+    have : x = .idle := by cases x <;> simp [Runner.isIdle] at hx ⊢
+    subst this
+    exact Step.hand s w rest pre post hp e
+  | [], _ => simp [hp] at h
+  | _ :: _, none => simp [hp, hf] at h
+
+/-- every step the concrete scheduler takes is a step of the transition system (any capacity) -/
+theorem next_sound (cap : Nat) (s t : St α) (h : next? s = some t) : Step cap s t := by
+  unfold next? at h
+  match hb : s.buf with
+  | w :: rest =>
+    simp only [hb] at h
+    cases h
+    exact Step.recv s w rest hb
+  | [] =>
+    simp only [hb] at h
+    match hh : handFirst? s with
+    | some t' =>
+      simp only [hh] at h
+      cases h
+      exact handFirst_sound cap s _ hh
+    | none =>
+    simp only [hh] at h
+    match hl : splitAtLast Runner.isBusy s.runners with
+    | some (pre, .busy w, post) =>
+      simp only [hl] at h
+      cases h
+      have := Step.sendDirect (cap := cap) s w pre post (splitAtLast_some _ _ _ _ _ hl).1 hb
+      rw [hb] at this; exact this
+    | some (pre, .idle, post) => simp [hl] at h
+    | some (pre, .done, post) => simp [hl] at h
+    | none =>
+      simp only [hl] at h
+      match hf : splitAtFirst Runner.isIdle s.runners with
+      | some (pre, x, post) =>
+        simp only [hf] at h
+        obtain ⟨e, hx⟩ := splitAtFirst_some _ _ _ _ _ hf
+        have : x = .idle := by cases x <;> simp [Runner.isIdle] at hx ⊢
+        subst this
+        match hp : s.pending with
+        | w :: rest =>
+          simp only [hp] at h
+          cases h
+          have := Step.hand (cap := cap) s w rest pre post hp e
+          rw [hb] at this; exact this
+        | [] =>
+          simp only [hp] at h
+          by_cases hw : s.wclosed = true
+          · simp only [hw, if_true] at h
+            cases h
+            have := Step.exit (cap := cap) s pre post hw e
+            rw [hb, hp, hw] at this; exact this
+          · simp only [hw] at h
+            cases h
+            have := Step.closeW (cap := cap) s hp (by simpa using hw)
+            rw [hb, hp] at this; exact this
+      | none =>
+        simp only [hf] at h
+        by_cases hc : s.closed = true
+        · simp [hc] at h
+        · simp only [hc] at h
+          cases h
+          have hall : ∀ r ∈ s.runners, r = .done := by
+            intro r hr
+            have h1 := splitAtLast_none _ _ hl r hr
+            have h2 := splitAtFirst_none _ _ hf r hr
+            cases r <;> simp [Runner.isBusy, Runner.isIdle] at h1 h2 ⊢
+          have := Step.closeOut (cap := cap) s hall (by simpa using hc)
+          rw [hb] at this; exact this
+
+/-- the concrete scheduler only stops when the consumer has seen the closed, drained channel -/
+theorem next_none (s : St α) (h : next? s = none) : Final s := by
+  unfold next? at h
+  match hb : s.buf with
+  | w :: rest => simp [hb] at h
+  | [] =>
+    simp only [hb] at h
+    match hh : handFirst? s with
+    | some t' => simp [hh] at h
+    | none =>
+    simp only [hh] at h
+    match hl : splitAtLast Runner.isBusy s.runners with
+    | some (pre, x, post) =>
+      have hx := (splitAtLast_some _ _ _ _ _ hl).2
+      cases x <;> simp [Runner.isBusy] at hx
+      simp [hl] at h
+    | none =>
+      simp only [hl] at h
+      match hf : splitAtFirst Runner.isIdle s.runners with
+      | some (pre, x, post) =>
+        simp only [hf] at h
+        match hp : s.pending with
+        | w :: rest => simp [hp] at h
+        | [] =>
+          simp only [hp] at h
+          by_cases hw : s.wclosed = true <;> simp [hw] at h
+      | none =>
+        simp only [hf] at h
+        by_cases hc : s.closed = true
+        · exact ⟨hc, hb⟩
+        · simp [hc] at h
+
+/-- **progress**: as long as the consumer has not seen the closed, drained channel some goroutine
+    can move — no deadlock, whatever the capacity of the result channel and the number of runners -/
+theorem progress (cap : Nat) (s : St α) (h : ¬ Final s) : ∃ t, Step cap s t := by
+  match hn : next? s with
+  | some t => exact ⟨t, next_sound cap s t hn⟩
+  | none => exact absurd (next_none s hn) h
+
+theorem steps_head {cap : Nat} {s t u : St α} (h : Step cap s t) (hs : Steps cap t u) : Steps cap s u := by
+  induction hs with
+  | refl => exact Steps.tail (Steps.refl s) h
+  | tail _ st ih => exact Steps.tail ih st
+
+theorem runFuel_spec (cap : Nat) : ∀ (n : Nat) (s : St α), measure s ≤ n →
+    Steps cap s (runFuel n s) ∧ Final (runFuel n s)
+  | 0, s, hm => by
+    match hn : next? s with
+    | some t => have := step_measure (next_sound cap s t hn); omega
+    | none => exact ⟨Steps.refl s, next_none s hn⟩
+  | n + 1, s, hm => by
+    unfold runFuel
+    match hn : next? s with
+    | some t =>
+      simp only
+      have hst := next_sound cap s t hn
+      have := step_measure hst
+      obtain ⟨h1, h2⟩ := runFuel_spec cap n t (by omega)
+      exact ⟨steps_head hst h1, h2⟩
+    | none => exact ⟨Steps.refl s, next_none s hn⟩
+
+
+/-! ### 13.4 the statements about `APIClientQuerier.Query` -/
+
+/-- the states `APIClientQuerier.Query` can be in for the host list `hosts` and `MaxConcurrent = mc`:
+    runners as computed by the regenerated `numRunners`, result channel of capacity `max mc 0` -/
+def QueryState (hosts : List α) (mc : Int) (s : St α) : Prop :=
+  Reachable (outCap mc) hosts (numRunners hosts.length mc) s
+
+/-- **runner_started**: a query for at least one host starts at least one runner, whatever
+    `MaxConcurrent` is -/
+theorem runner_started (hosts : List α) (mc : Int) (h : hosts ≠ []) : 1 ≤ numRunners hosts.length mc :=
+  numRunners_pos _ _ (List.length_pos_iff.mpr h)
+
+theorem staffed (hosts : List α) (mc : Int) : Staffed hosts (numRunners hosts.length mc) := by
+  by_cases h : hosts = []
+  · exact Or.inr h
+  · exact Or.inl (runner_started hosts mc h)
+
+/-- **query_closed_after_all_sent**: in every state `Query` can reach — every interleaving of
+    producer, runners, closer and consumer, every `MaxConcurrent` — the result channel is closed only
+    after one result per host was sent, and no runner still holds one -/
+theorem query_closed_after_all_sent (hosts : List α) (mc : Int) (s : St α) (h : QueryState hosts mc s)
+    (hc : s.closed = true) : (s.buf ++ s.recvd).Perm hosts ∧ busyOf s.runners = [] :=
+  ⟨closed_all_sent h (staffed hosts mc) hc, (no_send_after_close h hc).1⟩
+
+/-- **query_never_duplicates**: at any time what was sent so far, together with what is still
+    outstanding, is exactly the host list — no host's result is ever sent twice -/
+theorem query_never_duplicates (hosts : List α) (mc : Int) (s : St α) (h : QueryState hosts mc s) :
+    ∃ outstanding, ((s.buf ++ s.recvd) ++ outstanding).Perm hosts := by
+  have hi := inv_steps (inv_init hosts _) h
+  refine ⟨s.pending ++ busyOf s.runners, List.Perm.trans ?_ hi.conserve⟩
+  have := @List.perm_append_comm _ (s.buf ++ s.recvd) (s.pending ++ busyOf s.runners)
+  simpa [List.append_assoc] using this
+
+/-- **query_delivers_each_host_once** (clauses "every failed host is reported", "rows are the union
+    of the hosts' rows", for the querier): for EVERY schedule of the goroutines and EVERY
+    `MaxConcurrent`, a schedule that cannot be continued has closed the channel after the consumer
+    took exactly one result per entry of the host list (a permutation of it: nothing lost, nothing
+    duplicated). Together with `no_infinite_schedule` (every schedule ends) and `progress` (it only
+    ends there). -/
+theorem query_delivers_each_host_once (hosts : List α) (mc : Int) (s : St α) (h : QueryState hosts mc s)
+    (hstuck : ∀ t, ¬ Step (outCap mc) s t) : s.closed = true ∧ s.buf = [] ∧ s.recvd.Perm hosts := by
+  have hf : Final s := Classical.byContradiction fun hn =>
+    let ⟨t, ht⟩ := progress (outCap mc) s hn
+    hstuck t ht
+  exact ⟨hf.1, hf.2, final_delivered h (staffed hosts mc) hf⟩
+
+/-- the order the model driver feeds to the aggregation is the outcome of a genuine, complete
+    schedule of `Query` -/
+theorem runSched_spec (hosts : List α) (mc : Int) :
+    QueryState hosts mc (runSched hosts mc) ∧ Final (runSched hosts mc) :=
+  runFuel_spec (outCap mc) _ _ (Nat.le_refl _)
+
+theorem arrival_perm (hosts : List α) (mc : Int) : (arrival hosts mc).Perm hosts :=
+  final_delivered (runSched_spec hosts mc).1 (staffed hosts mc) (runSched_spec hosts mc).2
+
+/-- the concrete scheduler does reorder: with two runners the second host's result arrives first -/
+example : arrival [10, 11, 12, 13, 14] 2 = [11, 12, 13, 14, 10] := by decide
+example : arrival [10, 11, 12, 13, 14] 0 = [14, 13, 12, 11, 10] := by decide
+example : arrival [10, 11, 12] (-7) = [12, 11, 10] := by decide
+example : numRunners 5 0 = 5 ∧ numRunners 5 (-1) = 5 ∧ numRunners 5 1 = 1 ∧ numRunners 5 4 = 4 ∧
+    numRunners 5 5 = 5 ∧ numRunners 5 8 = 5 ∧ numRunners 0 3 = 0 := by decide
+
+/-- non-vacuity: the system does run, e.g. 3 hosts through 2 runners and a channel of capacity 2,
+    using the buffer -/
+example : ∃ s : St Nat, QueryState [10, 11, 12] 2 s ∧ s.buf = [10] ∧ s.recvd = [] ∧ busyOf s.runners = [11] := by
+  refine ⟨{ pending := [12], wclosed := false, runners := [.idle, .busy 11], buf := [10], closed := false, recvd := [] }, ?_, rfl, rfl, rfl⟩
+  have h0 : numRunners [10, 11, 12].length 2 = 2 := by decide
+  unfold QueryState Reachable
+  rw [h0]
+  have s1 : Step (outCap 2) (init [10, 11, 12] 2)
+      { pending := [11, 12], wclosed := false, runners := [.busy 10, .idle], buf := [], closed := false, recvd := [] } :=
+    Step.hand _ 10 [11, 12] [] [.idle] rfl rfl
+  have s2 : Step (outCap 2)
+      { pending := [11, 12], wclosed := false, runners := [.busy 10, .idle], buf := [], closed := false, recvd := [] }
+      { pending := [12], wclosed := false, runners := [.busy 10, .busy 11], buf := [], closed := false, recvd := [] } :=
+    Step.hand _ 11 [12] [.busy 10] [] rfl rfl
+  have s3 : Step (outCap 2)
+      { pending := [12], wclosed := false, runners := [.busy 10, .busy 11], buf := [], closed := false, recvd := [] }
+      { pending := [12], wclosed := false, runners := [.idle, .busy 11], buf := [10], closed := false, recvd := [] } :=
+    Step.sendBuf _ 10 [] [.busy 11] rfl (by decide)
+  exact Steps.tail (Steps.tail (Steps.tail (Steps.refl _) s1) s2) s3
+
+/-- the seeded regression `numRunners := min(len(hosts), a.MaxConcurrent)` -/
+def numRunnersMin (n : Nat) (mc : Int) : Nat := (min (n : Int) mc).toNat
+
+example : numRunnersMin 3 0 = 0 ∧ ¬ Staffed [10, 11, 12] (numRunnersMin 3 0) := by
+  refine ⟨by decide, fun h => ?_⟩
+  rcases h with h | h
+  · exact absurd h (by decide)
+  · cases h
+
+/-- … with it, `MaxConcurrent = 0` closes the result channel at once: the consumer sees the end of
+    a query that delivered nothing (`Staffed` is what `final_delivered` needs) -/
+example : ∃ s : St Nat, Reachable (outCap 0) [10, 11, 12] (numRunnersMin 3 0) s ∧ Final s ∧ s.recvd = [] :=
+  ⟨{ init [10, 11, 12] 0 with closed := true },
+   Steps.tail (Steps.refl _) (Step.closeOut _ (by simp [init, show numRunnersMin 3 0 = 0 by decide]) rfl), ⟨rfl, rfl⟩, rfl⟩
+
+end Fan
+
+/-! ### 13.5 querier + aggregation: the distributed query -/
+
+/-- **distributed_result_determined** (clause "the merged result of a distributed query is the same
+    for every order and interleaving in which the per-host results arrive", end to end): let the
+    hosts' replies be `l` (every host heard of once). For EVERY `MaxConcurrent`, EVERY schedule of
+    the querier's goroutines that has come to its end (`Final`: the aggregator saw the closed
+    channel) the aggregation of what arrived — batch or streaming — is the aggregation of `l`
+    itself: the result is determined by the hosts' replies alone. -/
+theorem distributed_result_determined (cfg : Cfg) (l : List Reply) (hd : DistinctHosts l) (mc : Int)
+    (s : Fan.St Reply) (h : Fan.QueryState l mc s) (hf : Fan.Final s) :
+    runBatch cfg s.recvd = runBatch cfg l ∧ (runStream cfg s.recvd).1 = runBatch cfg l := by
+  have hp := Fan.final_delivered h (Fan.staffed l mc) hf
+  have hd' := distinctHosts_perm hp.symm hd
+  exact ⟨merge_perm cfg hp hd', by rw [stream_eq_batch]; exact merge_perm cfg hp hd'⟩
+
+/-- … hence the same for any two settings of `MaxConcurrent` and any two schedules -/
+theorem distributed_result_same_for_every_setting (cfg : Cfg) (l : List Reply) (hd : DistinctHosts l)
+    (mc₁ mc₂ : Int) (s₁ s₂ : Fan.St Reply) (h₁ : Fan.QueryState l mc₁ s₁) (hf₁ : Fan.Final s₁)
+    (h₂ : Fan.QueryState l mc₂ s₂) (hf₂ : Fan.Final s₂) :
+    runBatch cfg s₁.recvd = runBatch cfg s₂.recvd := by
+  rw [(distributed_result_determined cfg l hd mc₁ s₁ h₁ hf₁).1, (distributed_result_determined cfg l hd mc₂ s₂ h₂ hf₂).1]
+
+/-- **distributed_result_eq_spec**: … and it is the judge's order-free `specResult` (under binning:
+    provided the hosts' hit totals are exact, see `batch_eq_spec_partial`) -/
+theorem distributed_result_eq_spec (cfg : Cfg) (l : List Reply) (hd : DistinctHosts l) (hn : NonNegTs l)
+    (hx : binActive cfg = true → HitsExact l) (mc : Int)
+    (s : Fan.St Reply) (h : Fan.QueryState l mc s) (hf : Fan.Final s) :
+    runBatch cfg s.recvd = specResult cfg l := by
+  rw [(distributed_result_determined cfg l hd mc s h hf).1]
+  exact batch_eq_spec_partial cfg l hd hn hx
+
+/-- **distributed_errors_reported** (clause "every failed host is reported with its error", end to
+    end): whatever `MaxConcurrent` and the schedule, a host whose query failed appears in the host
+    statuses of the distributed result with code `error` and its message -/
+theorem distributed_errors_reported (cfg : Cfg) (l : List Reply) (hd : DistinctHosts l) (mc : Int)
+    (s : Fan.St Reply) (h : Fan.QueryState l mc s) (hf : Fan.Final s)
+    (host : Nat) (msg : String) (w : Bool) (hm : Reply.err host msg w ∈ l) :
+    (host, ("error", msg)) ∈ (runBatch cfg s.recvd).hosts := by
+  rw [(distributed_result_determined cfg l hd mc s h hf).1]
+  exact (errors_reported cfg l hd host msg w hm).1
+
+/-- what the model driver prints for a `fan` case is the judge's `specFan`: the channel is closed
+    and the results taken from it are one per entry of the host list — for every `MaxConcurrent` -/
+theorem handleFan_eq_spec (mc : Option Int) (l : List Reply) :
+    handleFan mc l = "closed;" ++ Wire.showList (specFan l) := by
+  have hs := Fan.runSched_spec l (mcValue mc)
+  have hp : ((Fan.runSched l (mcValue mc)).recvd.map fanEntry).Perm (l.map fanEntry) :=
+    (Fan.final_delivered hs.1 (Fan.staffed l _) hs.2).map fanEntry
+  have hsort : insSort strLe ((Fan.runSched l (mcValue mc)).recvd.map fanEntry) = specFan l :=
+    insSort_eq_of_perm strLe
+      (fun a b c h1 h2 => by simp only [strLe, decide_eq_true_eq] at *; exact String.le_trans h1 h2)
+      (fun a b => by simp only [strLe, decide_eq_true_eq]; exact String.le_total a b)
+      hp
+      (fun a b _ _ h1 h2 => by simp only [strLe, decide_eq_true_eq] at *; exact String.le_antisymm h1 h2)
+  unfold handleFan
+  simp only [hs.2.1, hs.2.2, List.isEmpty_nil, Bool.and_self, if_true, hsort]
+
+theorem replyHostLe_perm (l : List Reply) : (insSort replyHostLe l).Perm l := insSort_perm _ l
+
+/-- what the model driver prints for a `run` case is the spec's result (descending order: the only
+    one `Args.Prepare` produces without a time label) — for every `MaxConcurrent` -/
+theorem handleRun_eq_spec (mc : Option Int) (cfg : Cfg) (l : List Reply) (hne : l ≠ [])
+    (hh : (l.map Reply.host).Nodup) (hd : DistinctHosts l) (hb : binActive cfg = false) :
+    handleRun mc cfg l = showResult (specResult { cfg with asc := false } l) := by
+  have hp : (Fan.arrival (insSort replyHostLe l) (mcValue mc)).Perm l :=
+    (Fan.arrival_perm _ _).trans (replyHostLe_perm l)
+  have he : l.isEmpty = false := by cases l <;> simp_all
+  unfold handleRun
+  simp only [hh, not_true_eq_false, if_false, he, Bool.false_eq_true]
+  rw [merge_perm _ hp (distinctHosts_perm hp.symm hd), batch_eq_spec _ l hd (by simpa [binActive] using hb)]
+
+/-- non-vacuity of the end-to-end statement on the three-host example (one host fails), through two
+    runners: the replies arrive in another order than the host list and the result is the spec's -/
+example : Fan.arrival exReplies 2 ≠ exReplies ∧
+    runBatch exCfg (Fan.arrival exReplies 2) = specResult exCfg exReplies := by
+  refine ⟨by decide, ?_⟩
+  have h := Fan.runSched_spec exReplies 2
+  exact (distributed_result_determined exCfg exReplies (by decide) 2 _ h.1 h.2).1.trans
+    (batch_eq_spec _ _ (by decide) (by decide))
+
 end C15
